@@ -26,6 +26,8 @@ Inductive action : Type :=
 | ACancel (name : nat)                    (* provider.cancel_timer(name) *)
 | ASend (msg : nat) (dst : option nat)    (* SendMessageCommand(msg, dst) *)
 | ABroadcast (msg : nat)                  (* BroadcastMessageCommand(msg) *)
+| ABcastDst (msg dst : nat)               (* CommunicationCommand(BROADCAST, msg, destination=dst): the
+                                             destination is ignored, except that naming oneself raises *)
 | AGoto (p : vec3 F)                      (* GotoCoordsMobilityCommand *)
 | AGotoGeo (p : vec3 F)                   (* GotoGeoCoordsMobilityCommand *)
 | ASetSpeed (s : F)                       (* SetSpeedMobilityCommand *)
@@ -209,6 +211,10 @@ Definition do_action (h : sstate) (now : F) (n : nat) (a : action) : sstate * li
            end
   | ABroadcast msg =>
       if negb has_comm then (h, [], Ok)
+      else let '(h1, q) := broadcast h now n msg (seq 0 (c_nnodes cfg)) in (h1, q, Ok)
+  | ABcastDst msg d =>
+      if negb has_comm then (h, [], Ok)
+      else if Nat.eqb d n then (h, [], ErrComm)
       else let '(h1, q) := broadcast h now n msg (seq 0 (c_nnodes cfg)) in (h1, q, Ok)
   | AGoto p =>
       if negb has_mob then (h, [], Ok)
